@@ -1,0 +1,49 @@
+//go:build verif
+
+// Contracts for the credential extractors (property C24, reduced core). Comment-only.
+
+package vgirpc
+
+// ---- static bearer tokens ----
+//
+// BearerAuthenticate$1: the validator sees exactly what follows "Bearer " and only for a header
+// that starts with it; its answer is the authenticator's answer.
+//
+//@ func BearerAuthenticate$1
+//@   property C24
+//@   at call "captured:validate" assert [scheme] authHeader != "" && arg0 == token
+//@   at call strings.TrimPrefix assert [prefix] arg0 == authHeader && arg1 == "Bearer "
+//@   at call strings.HasPrefix assert [prefixcheck] arg0 == authHeader && arg1 == "Bearer "
+
+// BearerAuthenticateStatic$1: the identity returned is that of a configured token that equals
+// the presented one byte for byte (the first such entry); with no equal entry the request is
+// refused with a ValueError.
+//
+//@ func BearerAuthenticateStatic$1
+//@   property C24
+//@   # (a token configured with a nil identity never authenticates anybody)
+//@   loop 0 invariant match == nil ==> (forall j int :: 0 <= j && j <= rangeindex ==> !bytesEqual(tokenB, encoded[j].key) || encoded[j].ctx == nil)
+//@   loop 0 invariant match != nil ==> (exists j int :: 0 <= j && j <= rangeindex && bytesEqual(tokenB, encoded[j].key) && match == encoded[j].ctx)
+//@   ensures [local_unknown_ret1] result0 == nil && directRpc(result1, "ValueError") && (forall j int :: 0 <= j && j < len(encoded) ==> !bytesEqual(tokenB, encoded[j].key) || encoded[j].ctx == nil)
+//@   ensures [local_known_ret2] result1 == nil && result0 == match && (exists j int :: 0 <= j && j < len(encoded) && bytesEqual(tokenB, encoded[j].key) && match == encoded[j].ctx)
+
+// ---- the XFCC splitter ----
+//
+// The header grammar as a scanner: xat(t,i) — the scan stands at index i; xq(t,i) — it is inside
+// a quoted string there. A double quote toggles the state; inside quotes a backslash takes the
+// next character with it (so an escaped quote does not close the string); everything else keeps
+// the state. splitRespectingQuotes follows exactly this scanner and cuts exactly at the
+// delimiters it meets outside quotes.
+//
+//@ ghost pred xat(t string, i int)
+//@ ghost pred xq(t string, i int)
+//@ axiom xfccStart: forall t string :: xat(t, 0) && !xq(t, 0)
+//@ axiom xfccQuote: forall t string, i int :: xat(t, i) && 0 <= i && i < len(t) && t[i] == 34 ==> xat(t, i + 1) && (xq(t, i + 1) <==> !xq(t, i))
+//@ axiom xfccEscape: forall t string, i int :: xat(t, i) && 0 <= i && i + 1 < len(t) && t[i] == 92 && xq(t, i) ==> xat(t, i + 2) && (xq(t, i + 2) <==> xq(t, i))
+//@ axiom xfccOther: forall t string, i int :: xat(t, i) && 0 <= i && i < len(t) && t[i] != 34 && !(t[i] == 92 && xq(t, i) && i + 1 < len(t)) ==> xat(t, i + 1) && (xq(t, i + 1) <==> xq(t, i))
+//
+//@ func splitRespectingQuotes
+//@   property C24
+//@   nopanic(index)
+//@   loop 0 invariant 0 <= i && i <= len(text) && xat(text, i) && (inQuotes <==> xq(text, i))
+//@   at call append#1 assert [cut] 0 <= i && i < len(text) && xat(text, i) && text[i] == delimiter && !xq(text, i)
